@@ -299,7 +299,11 @@ class yanny(OrderedDict):
             if l > 0:
                 line += "[{0:d}]".format(l)
             if t[0] in 'SU' and c not in enums:
-                line += "[{0:d}]".format(s)
+                #
+                # Number of characters, not bytes ('U' items are 4 bytes
+                # per character).
+                #
+                line += "[{0:d}]".format(int(t[1:]))
             line += ';'
             lines.append(line)
         lines.append('}} {0};'.format(structname.upper()))
